@@ -553,7 +553,16 @@ pub fn run_case_full(mut rig: Rig, ins: &[InSpec], acts: &[Act], adaptive_flush:
                 } else {
                     false
                 };
-                if said_eof && eof_true_at.is_none() {
+                // the other way a runner retires a block: the wait verdict names a stream whose peer is gone and
+                // which cannot satisfy the request any more (`stream.wait(need)` = true, `stream.closed()`)
+                let never = match v.strip_prefix('I').and_then(|r| r.split_once(',')) {
+                    Some((k, need)) => match (k.parse::<usize>(), need.parse::<usize>()) {
+                        (Ok(k), Ok(need)) => k < closed.len() && closed[k] && in_used[k] < need,
+                        _ => false,
+                    },
+                    None => false,
+                };
+                if (said_eof || never) && eof_true_at.is_none() {
                     eof_true_at = Some((calls.len(), produced_total.clone()));
                 }
                 let consumed: Vec<String> = consumed_n.iter().map(|c| c.to_string()).collect();
